@@ -274,4 +274,108 @@ class Generated(SubCheck):
             yield dict(case, nrow=1, molid=[0])
 
 
-SUBCHECKS = [Lattice(), Generated()]
+# ------------------------------------------------------------------------------------------------ surface-hopping stream (real FSSH)
+@st.composite
+def _fcase(draw):
+    steps = draw(st.integers(8, 16))
+    return {"tpl": draw(st.sampled_from(["H2O", "H2CO"])), "nmol": draw(st.integers(1, 2)), "nstates": draw(st.sampled_from([2, 3])),
+            "na": draw(st.sampled_from([1, 2, 2, 3])), "data": draw(st.sampled_from([1, 2])), "steps": steps, "seed": draw(st.integers(0, 50)),
+            "draw": draw(st.sampled_from(["eager", "eager", "rng"])), "method": draw(st.sampled_from(["AM1", "PM3"]))}
+
+
+class FsshStream(SubCheck):
+    """The nonadiabatic HDF5 stream of a REAL surface-hopping run (SCF + CIS driven): every row written for step j holds the active
+    surface and the electronic amplitudes the driver has AFTER step j is complete (hops, relabelling and collapse applied), at
+    exactly the due steps. Ground truth = the driver's own state captured right after each integrator step. With draw = 'eager'
+    the harness owns the hop lottery (uniform draw fixed at 1e-6), so surface changes are frequent and land on written steps."""
+    name = "fssh_stream"
+    budget = {"quick": 24, "thorough": 600}
+    weight = 6.0
+
+    def strategy(self, tier):
+        return _fcase()
+
+    def oracle(self, case):
+        from seqm.NonadiabaticDynamics import NonadiabaticDynamicsBase, SurfaceHoppingDynamics
+
+        from .. import molecules as M
+
+        stubforce.uninstall()
+        labels = ["tpl:" + case["tpl"], "nmol:%d" % case["nmol"], "nstates:%d" % case["nstates"], "na:%d" % case["na"], "draw:" + case["draw"]]
+        geoms = [M.geometry({"tpl": case["tpl"], "amp": 0.05, "disp": [((5 * i + 3 * b + case["seed"]) % 11 - 5) / 5.0 for i in range(3 * len(M.ALL[case["tpl"]]["Z"]))]})
+                 for b in range(case["nmol"])]
+        sp = torch.tensor([list(g[0]) for g in geoms])
+        xyz = torch.tensor(np.array([g[1] for g in geoms]), dtype=torch.float64)
+        s = {"method": case["method"], "scf_eps": 1e-8, "scf_converger": [1], "excited_states": {"n_states": case["nstates"], "method": "cis"}}
+        wd = tempfile.mkdtemp(prefix="pv_c11f_")
+        captured = {}
+        orig_step = NonadiabaticDynamicsBase._do_integrator_step
+        orig_hop = SurfaceHoppingDynamics._attempt_hop
+
+        def rec_step(self, i, molecule, learned_parameters, **kw):
+            r = orig_step(self, i, molecule, learned_parameters, **kw)
+            captured[i + 1 + self.step_offset * 0] = (tonp_(self._active_states + 1).copy(), tonp_(torch.view_as_real(self._coeffs_complex())).copy())
+            return r
+
+        def eager_hop(self):
+            real = torch.rand
+            torch.rand = lambda n, **k: torch.full((n,), 1e-6, **k)
+            try:
+                return orig_hop(self)
+            finally:
+                torch.rand = real
+
+        NonadiabaticDynamicsBase._do_integrator_step = rec_step
+        if case["draw"] == "eager":
+            SurfaceHoppingDynamics._attempt_hop = eager_hop
+        try:
+            out = {"molid": list(range(case["nmol"])), "prefix": os.path.join(wd, "f"), "print every": 0, "xyz": 0, "checkpoint every": 0,
+                   "h5": {"data": case["data"], "coordinates": 0, "velocities": 0, "forces": 0, "nonadiabatic": case["na"]}}
+            try:
+                with silence():
+                    mol = Molecule(Constants(), s, xyz, sp)
+                    md = SurfaceHoppingDynamics(seqm_parameters=s, Temp=1000.0, timestep=0.4, output=out, initial_state=case["nstates"])
+                    md.run(mol, steps=case["steps"], seed=case["seed"])
+            except Exception as e:
+                if "converge" in str(e).lower():
+                    return Outcome.inconclusive("fssh_run_not_converged", labels)
+                return Outcome.fail(f"fssh_run_raises:{type(e).__name__}", f"{type(e).__name__}: {str(e)[:200]}", labels, True)
+            want = [j for j in range(1, case["steps"] + 1) if j % case["na"] == 0]
+            changed_on_written = False
+            for m in range(case["nmol"]):
+                with h5py.File(os.path.join(wd, f"f.{m}.h5"), "r") as h5:
+                    if "data" not in h5 or "nonadiabatic" not in h5["data"]:
+                        return Outcome.fail("nonadiabatic_group_missing", f"molecule {m}: /data/nonadiabatic absent although the cadence is {case['na']}", labels, True)
+                    g = h5["data/nonadiabatic"]
+                    steps = [int(v) for v in g["steps"][...]]
+                    act = g["active_surface"][...]
+                    amp = g["electronic_amplitudes"][...]
+                body = [j for j in steps if j != 0] if steps and steps[0] == 0 else steps
+                if body != want or (steps and steps[0] == 0 and steps.count(0) > 1):
+                    return Outcome.fail("nonadiabatic_steps_not_the_due_steps", f"molecule {m}: rows at steps {steps}, due {want} (an initial row 0 is tolerated)", labels, True)
+                off = 1 if steps and steps[0] == 0 else 0
+                for k, j in enumerate(want):
+                    a_true, c_true = captured[j]
+                    prev = captured[j - 1][0][m] if j - 1 in captured else case["nstates"]
+                    if a_true[m] != prev:
+                        changed_on_written = True
+                    if int(act[k + off]) != int(a_true[m]):
+                        return Outcome.fail("nonadiabatic_row_not_the_state_of_its_step", f"molecule {m}, row for step {j}: active_surface {int(act[k + off])}, the driver is on surface {int(a_true[m])} after that step (surface before the step: {int(prev)})", labels, True)
+                    if not np.array_equal(amp[k + off], c_true[m][: amp.shape[1]]):
+                        return Outcome.fail("nonadiabatic_row_not_the_state_of_its_step", f"molecule {m}, row for step {j}: electronic_amplitudes differ from the driver's coefficients after that step by {np.abs(amp[k + off] - c_true[m][: amp.shape[1]]).max():.3e}", labels, True)
+            nchanges = sum(1 for j in range(1, case["steps"] + 1) for m in range(case["nmol"])
+                           if captured[j][0][m] != (captured[j - 1][0][m] if j > 1 else case["nstates"]))
+            labels.append("surface_changes:%s" % ("0" if nchanges == 0 else "1-2" if nchanges <= 2 else "3+"))
+            labels.append("change_on_written_step:%s" % changed_on_written)
+            return Outcome.ok(changed_on_written, labels, surface_changes=nchanges)
+        finally:
+            NonadiabaticDynamicsBase._do_integrator_step = orig_step
+            SurfaceHoppingDynamics._attempt_hop = orig_hop
+            shutil.rmtree(wd, ignore_errors=True)
+
+
+def tonp_(t):
+    return t.detach().cpu().numpy()
+
+
+SUBCHECKS = [Lattice(), Generated(), FsshStream()]
